@@ -834,6 +834,10 @@ def run_program(out, tree, ops, queries=(), top=None, stats=None, handlers=None,
                     out.label("skip:adjustMassFrac-not-applicable")
                     continue
                 v = round((0.02 + 0.9 * op["frac"]) * (1.0 - Cs), 9)
+                # roundoff model of the documented algorithm: every mass fraction is good to a few ulp OF ONE (the held nuclides are
+                # handed on as 1 - sum(everything else)), and the factor for "the others" divides by O = 1 - A - C, itself a
+                # difference good to a few ulp of one, so their absolute error grows by (1 - v - C) / O
+                adj_mf_tol = 64.0 * 2.220446049250313e-16 * max(1.0, (1.0 - v - Cs) / O)
                 for n in present:
                     if n in Aset:
                         mf = pre.mass(n) / M * v / A if A > 0 else v / len(Aset)
@@ -1019,11 +1023,13 @@ def run_program(out, tree, ops, queries=(), top=None, stats=None, handlers=None,
         for nuc, ea in expect.items():
             ga = post.atoms.get(nuc, 0.0)
             scale = max(pre.aabs.get(nuc, 0.0), post.aabs.get(nuc, 0.0))
+            ok = _close(ga, ea, scale)
             if kind == "adjMF":
-                # adjustMassFrac hands the held nuclides to setMassFracs as "the rest", i.e. as (1 - sum of all others): their
-                # mass FRACTION is exact to a few ulp of 1.0, not of itself
-                scale = max(scale, 1e-4 * pre.total_mass() * C / _weight(nuc))
-            if not out.check(_close(ga, ea, scale), sig_rb,
+                # absolute tolerance on the MASS FRACTION (64 ulp of one x amplification), translated to atoms of this nuclide
+                tol_atoms = adj_mf_tol * pre.total_mass() * C / _weight(nuc)
+                ok = abs(ga - ea) <= tol_atoms
+                scale = tol_atoms / REL  # (the getter comparison below uses the same absolute tolerance)
+            if not out.check(ok, sig_rb,
                              lambda: "%s: %s requested N=%r (mass %r g), children now hold N=%r (mass %r g); before N=%r" % (
                                  where, nuc, ea / pre.vol, ea * _weight(nuc) / C, ga / post.vol, ga * _weight(nuc) / C, pre.ndens(nuc))):
                 continue
@@ -1034,8 +1040,10 @@ def run_program(out, tree, ops, queries=(), top=None, stats=None, handlers=None,
                 # (a name that is also an element symbol selects the isotopes in components without the elemental nuclide)
                 extra, _eabs, _amb = _mass_of_spec(tree, node, post_snap, nuc)
                 extra -= post.mass(nuc)
-                out.check(_close(gm, em + extra, scale * _weight(nuc) / C), sig_rb,
-                          lambda: "%s: getMass(%s)=%r after requesting %r g" % (where, nuc, gm, em))
+                okm = _close(gm, em + extra, scale * _weight(nuc) / C)
+                if kind == "adjMF":
+                    okm = abs(gm - em - extra) <= 2.0 * adj_mf_tol * pre.total_mass()
+                out.check(okm, sig_rb, lambda: "%s: getMass(%s)=%r after requesting %r g" % (where, nuc, gm, em))
             else:
                 gn = obj.getNumberDensity(nuc)
                 out.check(_close(gn, ea / pre.vol, scale / pre.vol), sig_rb,
